@@ -132,11 +132,90 @@ ERProg(c) ==
        [] c.pos = "uncaught" -> Prog(<<SLog(I(0))>> \o site \o <<SLog(I(50))>>)
 ERCases == [st : ERSites, pos : {"top", "fn", "infn", "cb", "nested", "uncaught"}]
 
+\* ======================= family EL: where the faulting node stands inside its statement ==============
+\* The statement that raises contains, BEFORE the faulting node, code that has statements (= source locations) of its own:
+\*   pre  : nothing (control) | a function literal with a body of two statements (function expression, named function
+\*          expression, arrow, arrow inside an arrow, getter / setter of an object literal) | the body of the loop in whose
+\*          head the node stands (condition of do-while, update of for; second evaluation of a while / for test)
+\*   site : what raises (six runtime error kinds, a throw statement whose operand holds the literal, a member read on the
+\*          result of a native that has just RUN the literal as a callback)
+\*   stk  : the statement the expression sits in;   pos : where that statement is and where the handler is
+\* The handler reports constructor, name, lineNumber, columnNumber (judged by PosOK: the node or its own statement).
+ELPres == {"none", "fn", "nfn", "arrow", "arrow2", "getter", "setter", "dobody", "forbody", "whilebody", "fortestbody"}
+ELFnPres == {"fn", "nfn", "arrow", "arrow2"}
+ELLoopPres == {"dobody", "forbody", "whilebody", "fortestbody"}
+ELSites == {"nullmember", "undefmember", "callnonfn", "unknownid", "methundef", "masgnull", "throwstmt", "mapres"}
+ELStmts == {"expr", "varinit", "ifcond", "ret", "logarg"}
+ELPoss == {"top", "fn", "infn", "arrow", "cb"}
+ELInnerBody == <<SVar1("y", Plus(Var("a"), I(2))), SRet(Var("y"))>>
+ELNested(pre) ==
+  CASE pre = "fn" -> Fun("", <<"a">>, ELInnerBody)
+    [] pre = "nfn" -> Fun("nm", <<"a">>, ELInnerBody)
+    [] pre = "arrow" -> Arrow(<<"a">>, ELInnerBody)
+    [] pre = "arrow2" -> Arrow(<<"a">>, <<SVar1("w", Arrow(<<"b">>, <<SVar1("y", Plus(Var("b"), I(2))), SRet(Var("y"))>>)), SRet(Call(Var("w"), <<Var("a")>>))>>)
+    [] pre = "getter" -> ObjK(<<"p">>, <<"get">>, <<Fun("", <<>>, <<SVar1("y", I(2)), SRet(Var("y"))>>)>>)
+    [] pre = "setter" -> ObjK(<<"p">>, <<"set">>, <<Fun("", <<"v">>, <<SVar1("y", Var("v")), SLog(Var("y"))>>)>>)
+    [] OTHER -> I(0)
+\* k(a, b) returns b: the literal is the first argument, the value that makes the rest of the statement fail the second
+ELK(pre, v) == Call(Var("k"), <<ELNested(pre), v>>)
+ELFault(site, pre) ==
+  CASE site = "nullmember" -> DotAt(1, ELK(pre, ENull), "x")
+    [] site = "undefmember" -> MemAt(1, ELK(pre, EUndef), EStr("x"))
+    [] site = "callnonfn" -> CallAt(1, ELK(pre, I(5)), <<I(1)>>)
+    [] site = "unknownid" -> ELK(pre, VarAt(1, "zz"))
+    [] site = "methundef" -> CallAt(1, Dot(ELK(pre, Obj(<<"a">>, <<I(1)>>)), "nope"), <<I(1)>>)
+    [] site = "masgnull" -> MAsg(DotAt(1, ELK(pre, ENull), "x"), I(3))
+    [] site = "mapres" -> DotAt(1, Mem(Call(Dot(Arr(<<I(1), I(2)>>), "map"), <<ELNested(pre)>>), I(5)), "x")
+ELLoopBody == SBlock(<<SVar1("y", I(1)), SLog(Var("y"))>>)
+ELStmt(c) ==
+  LET E == ELFault(c.site, c.pre) IN
+  IF c.site = "throwstmt" THEN <<SThrowAt(1, ELK(c.pre, New(Var("RangeError"), <<EStr("m")>>)))>>
+  ELSE CASE c.pre = "dobody" -> <<SDo(ELLoopBody, E)>>
+         [] c.pre = "forbody" -> <<SFor(SVar1("i", I(0)), Bin("<", Var("i"), I(2)), E, ELLoopBody)>>
+         [] c.pre = "whilebody" -> <<SVar1("i", I(0)), SWhile(Or(Bin("<", Upd("++", FALSE, "i"), I(1)), E), ELLoopBody)>>
+         [] c.pre = "fortestbody" -> <<SFor(SVar1("i", I(0)), Or(Bin("<", Var("i"), I(1)), E), Upd("++", FALSE, "i"), ELLoopBody)>>
+         [] c.stk = "expr" -> <<SExpr(E)>>
+         [] c.stk = "varinit" -> <<SVar1("t", E)>>
+         [] c.stk = "ifcond" -> <<SIf(E, SBlock(<<SLog(I(1))>>), NoS)>>
+         [] c.stk = "ret" -> <<SRet(E)>>
+         [] c.stk = "logarg" -> <<SLog(E)>>
+ELClass(site) == CASE site = "unknownid" -> "ReferenceError" [] site = "throwstmt" -> "RangeError" [] OTHER -> "TypeError"
+ELProg(c) ==
+  LET ss == ELStmt(c)
+      kdef == SFun("k", <<"a", "b">>, <<SRet(Var("b"))>>)
+      catch == SBlock(Report("e9", ELClass(c.site)))
+      fbody == <<SLog(I(0))>> \o ss \o <<SRet(I(1))>>
+      callf == <<STry(SBlock(<<SLog(Call(Var("f"), <<>>))>>), "e9", catch, NoS), SLog(I(50))>>
+  IN CASE c.pos = "top" -> Prog(<<kdef, SLog(I(0)), STry(SBlock(ss), "e9", catch, NoS), SLog(I(50))>>)
+       [] c.pos = "fn" -> Prog(<<kdef, SFun("f", <<>>, fbody)>> \o callf)
+       [] c.pos = "arrow" -> Prog(<<kdef, SVar1("f", Arrow(<<>>, fbody))>> \o callf)
+       [] c.pos = "infn" -> Prog(<<kdef, SFun("f", <<>>, <<SLog(I(0)), STry(SBlock(ss), "e9", catch, NoS), SRet(I(1))>>),
+                                   SLog(Call(Var("f"), <<>>)), SLog(I(50))>>)
+       [] c.pos = "cb" -> Prog(<<kdef, STry(SBlock(<<SExpr(Call(Dot(Arr(<<I(1)>>), "forEach"), <<Fun("", <<"q">>, <<SLog(Var("q"))>> \o ss)>>))>>), "e9", catch, NoS),
+                                 SLog(I(50))>>)
+ELAll == [pre : ELPres, site : ELSites, stk : ELStmts, pos : ELPoss]
+ELValid(c) ==
+  /\ (c.stk = "ret" => c.pos # "top")
+  /\ (c.site = "mapres" => c.pre \in ELFnPres)                       \* the native runs the literal
+  /\ (c.site = "throwstmt" \/ c.pre \in ELLoopPres => c.stk = "expr") \* the statement kind is fixed by the site / the loop
+  /\ (c.site = "throwstmt" => c.pre \notin ELLoopPres)
+\* quick: every (pre, site) pair twice (expression statement at script level; another statement kind in a function),
+\* every (pre, statement kind, position) for one site, every (pre, position) for a second one
+ELQuickSel(c) ==
+  \/ (c.stk = "expr" /\ c.pos = "top")
+  \/ (c.stk = (IF c.site \in {"nullmember", "callnonfn", "mapres"} THEN "varinit" ELSE IF c.site \in {"unknownid", "masgnull"} THEN "ret" ELSE "logarg")
+      /\ c.pos = (IF c.pre \in {"fn", "arrow", "getter"} THEN "fn" ELSE IF c.pre \in {"nfn", "arrow2", "setter"} THEN "arrow" ELSE "cb"))
+  \/ (c.site = "methundef" /\ c.pre \in {"none", "fn", "arrow", "getter"})
+  \/ (c.site = "unknownid" /\ c.stk = "expr")
+ELCases == {c \in ELAll : ELValid(c) /\ (~Quick \/ ELQuickSel(c))}
+
 \* ======================= enumeration =================================================================
 C07Prog(cs) == CASE cs.fam = "TS" -> TSProg(cs.c) [] cs.fam = "FO" -> FOProg(cs.c) [] cs.fam = "ER" -> ERProg(cs.c)
+                 [] cs.fam = "EL" -> ELProg(cs.c)
 C07Cases == (IF Has("TS") THEN {[fam |-> "TS", c |-> c] : c \in TSCases} ELSE {})
             \cup (IF Has("FO") THEN {[fam |-> "FO", c |-> c] : c \in FOCases} ELSE {})
             \cup (IF Has("ER") THEN {[fam |-> "ER", c |-> c] : c \in ERCases} ELSE {})
+            \cup (IF Has("EL") THEN {[fam |-> "EL", c |-> c] : c \in ELCases} ELSE {})
 C07EnumInit == /\ rec_i = 0 /\ cur \in C07Cases /\ mst = InitState(C07Prog(cur), {})
 C07EnumEmit == ~Halted(mst) \/ PrintT(ToJson([fam |-> cur.fam, par |-> cur.c, prog |-> C07Prog(cur), steps |-> mst.steps]))
 \* a finally block that has been entered is left before its try statement's continuation frame disappears, and a thrown
